@@ -6,7 +6,7 @@ from engine.cfg import cfg_of
 from engine.cond import CondCtx, satisfiable
 from engine.callgraph import CallGraph
 from engine.defuse import defuse_of, attr_accesses, method_calls_on_attr
-from .common import calls_named, package_calls, node_lits, contained, enclosing_trys, handler_catches, resolve_arg
+from .common import calls_named, package_calls, node_lits, contained, enclosing_trys, handler_catches, resolve_arg, before
 from .c02 import _Sub
 from . import c01, c02
 
@@ -115,11 +115,11 @@ def r1(ctx):
             after = all(cfg.must_pass(s, head, {D}, edge_ok=_log_ok) and cfg.must_pass(s, cfg.exit, {D}, edge_ok=_log_ok) and
                         cfg.must_pass(s, cfg.raise_exit, {D}, edge_ok=_log_ok) for (s, l) in cfg.succ[N])
             # the del is preceded, in the same iteration, by the onDisconnect
-            before = cfg.must_pass(head, D, {N}, skip_labels=())
-            ok = after and before
+            passed_before = cfg.must_pass(head, D, {N}, skip_labels=())
+            ok = after and passed_before
             ctx.check(after, "C10.R1", run, "onDisconnect(client) is followed by `del connections[client.addr]` on every path (also exceptional)",
                       "a client that saw disconnect can never see another event", line=c.lineno)
-            ctx.check(before, "C10.R1", run, "`del connections[client.addr]` is preceded by onDisconnect(client) in the same iteration",
+            ctx.check(passed_before, "C10.R1", run, "`del connections[client.addr]` is preceded by onDisconnect(client) in the same iteration",
                       "no client disappears without its disconnect event", line=mine[0].lineno)
         else:
             ctx.violated("C10.R1", run, c, "no matching `del connections[client.addr]` in the same loop", line=c.lineno)
@@ -152,12 +152,12 @@ def r1(ctx):
     if ok:
         main = [n for n in run.node.body if isinstance(n, ast.While)]
         ok = len(main) == 1 and cfg.dominates(cfg.node_of(post[0]._parent if False else [p for p in _parents(post[0], run.node) if isinstance(p, ast.For)][0]).id, cfg.node_of(sh[0]).id) \
-            and post[0].lineno > main[0].lineno and "ctxt._active" in norm(main[0].test)
+            and before(run, main[0], post[0]) and "ctxt._active" in norm(main[0].test)
     ctx.check(ok, "C10.R1", run, "after the main loop: disconnect every remaining client, then handler.shutdown()", "server shutdown raises disconnect for all connected clients")
     st = [c for (f, c) in hc if c.func.attr == "starting"]
     if st and len([n for n in run.node.body if isinstance(n, ast.While)]) == 1:
         main = [n for n in run.node.body if isinstance(n, ast.While)][0]
-        ctx.check(st[0].lineno < main.lineno, "C10.R1", run, "handler.starting() precedes the main loop")
+        ctx.check(before(run, st[0], main), "C10.R1", run, "handler.starting() precedes the main loop")
     # handle_message: client from connections[addr], messages from that client's queue, queue cleared afterwards
     hm = [c for (f, c) in hc if c.func.attr == "handle_message"]
     for c in hm:
@@ -322,7 +322,7 @@ def r4(ctx):
     redraw = [n for n in ast.walk(whiles[0]) if isinstance(n, ast.Call) and norm(n.func) == "os.urandom"]
     ctx.check(len(redraw) >= 1, "C10.R4", gt, "a colliding candidate is re-drawn inside the loop")
     rets = [n for n in walk_own(gt.node) if isinstance(n, ast.Return)]
-    ctx.check(len(rets) == 1 and norm(rets[0].value) == "token" and rets[0].lineno > whiles[0].lineno, "C10.R4", gt, "the token returned is the one that passed the loop")
+    ctx.check(len(rets) == 1 and norm(rets[0].value) == "token" and before(gt, whiles[0], rets[0]), "C10.R4", gt, "the token returned is the one that passed the loop")
     if len(rets) == 1 and isinstance(rets[0].value, ast.Name):
         tv = rets[0].value.id
         tnodes = [n for n in cfg.nodes if n.kind == "test" and n.stmt is whiles[0]]
